@@ -11,6 +11,7 @@
 (*  k = "conv":  [hist (edges: even integers = real edge * 8, bins:        *)
 (*      integer ids of the contents), op, mode, dup, ranges, ok, exc,      *)
 (*      cols / cells / rows]                                               *)
+(*  k = "addtol": add with edge tolerances at any magnitude, see AddTolOk  *)
 (***************************************************************************)
 EXTENDS HistOpsSem, TLC, Json, IOUtils
 
@@ -58,7 +59,16 @@ ConvOk(r) ==
                         /\ \A j \in 1..Len(x.out) : /\ r.cells[j].e = x.out[j].e /\ r.cells[j].v = x.out[j].v
                                                     /\ r.cells[j].idx = x.out[j].idx)
        [] r.op = "csv" -> r.rows = CsvRef(B, E, r.dup) /\ r.rows = (IF Len(E) = 1 THEN Csv1Op(B, E, r.dup) ELSE Csv2Op(B, E, r.dup))
+\* k = "addtol": [edges (integers; the real edges are these times a power of two per axis), pert, tol, ok]:
+\* add returned a result exactly when the one perturbed edge is within the documented tolerance
+AddTolOk(r) ==
+  LET x == IF r.pert.kind = "none" THEN 0 ELSE r.edges[r.pert.axis][r.pert.pos] IN
+  /\ AllIncreasing(r.edges)
+  /\ r.ok = PertClose(x, r.pert, r.tol)
+  /\ (r.tol.kind # "default" /\ r.pert.kind # "none") =>
+       (r.ok = DocClose(RI(x), PertY(x, r.pert, r.tol), r.tol.rel, r.tol.abs))
 RecOk(r) == CASE r.k = "hist" -> HistOk(r) [] r.k = "graph" -> GraphOk(r) [] r.k = "conv" -> ConvOk(r)
+              [] r.k = "addtol" -> AddTolOk(r)
 
 Init == i = 1
 Next == i <= Len(Trace) /\ RecOk(Trace[i]) /\ i' = i + 1
